@@ -2,6 +2,8 @@ package props
 
 import (
 	"fmt"
+	nodetypes "github.com/SaoNetwork/sao/x/node/types"
+	sdk "github.com/cosmos/cosmos-sdk/types"
 	"reflect"
 
 	"saoverif/actors"
@@ -223,14 +225,29 @@ func scnTimeouts(ctx *check.JobCtx) {
 	funded := append([]*actors.Account{gwA, w.Acct("pay-owner"), w.Acct("pay-sowner")}, spA...)
 	np := chain.DefaultNodeParams()
 	np.OfflineTriggerHeight = 1_000_000
-	gen := w.StandardGenesis(np, funded, 10_000_000_000, nil)
+	withSuper := ctx.Arg("super", "") == "1"
+	var mut func(*chain.GenesisSpec)
+	if withSuper {
+		// the first provider holds the super role from genesis on (first pick of every order, also of every retry)
+		mut = func(s *chain.GenesisSpec) {
+			a := spA[0].Addr.String()
+			s.Nodes = append(s.Nodes, nodetypes.Node{Creator: a, Reputation: 10000, Status: world.StatusAll, Role: 1})
+			s.Pledges = append(s.Pledges, nodetypes.Pledge{Creator: a, TotalStoragePledged: sdk.NewInt64Coin(chain.Denom, 1000), TotalShardPledged: sdk.NewInt64Coin(chain.Denom, 0),
+				Reward: sdk.NewInt64DecCoin(chain.Denom, 0), RewardDebt: sdk.NewInt64DecCoin(chain.Denom, 0), TotalStorage: 1_000_000_000})
+		}
+	}
+	gen := w.StandardGenesis(np, funded, 10_000_000_000, mut)
 	if err := w.Init(gen, 1); err != nil {
 		w.Finish()
 		return
 	}
 	gw := w.SetupProvider(gwA, 0)
 	w.Providers = nil
-	for _, a := range spA {
+	for i, a := range spA {
+		if withSuper && i == 0 {
+			w.Providers = append(w.Providers, &world.Provider{Acct: a})
+			continue
+		}
 		w.SetupProvider(a, 1_000_000_000)
 	}
 	// SetupProvider appended the gateway too: keep storage providers only
@@ -358,7 +375,7 @@ func scnTimeouts(ctx *check.JobCtx) {
 		if t, ok := c12.track[oid]; ok {
 			t.noRepl = extra == 0
 		}
-		w.Case("c12:pattern:replica=%d,extra=%d,td=%s,ready=%v,late=%v,bits=%0*b", replica, extra, tdClass, viaReady, viaReady && pat%2 == 1, nbits, pat)
+		w.Case("c12:pattern:replica=%d,extra=%d,td=%s,ready=%v,late=%v,super=%v,bits=%0*b", replica, extra, tdClass, viaReady, viaReady && pat%2 == 1, withSuper, nbits, pat)
 		decide(w)
 		w.EndBlock()
 		if twinOid != 0 {
